@@ -7,5 +7,5 @@ git -C /repo worktree remove --force $wt >/dev/null 2>&1
 git -C /repo worktree add -q --detach $wt HEAD || exit 2
 case $patch in /*) ;; *) patch=/verif/$patch;; esac
 if ! git -C $wt apply $patch; then echo "PATCH-FAILED $name"; git -C /repo worktree remove --force $wt; exit 2; fi
-cd /verif && VERIF_REPO=$wt ./check $id "$@" 2>&1 | grep -E "VIOLATION|invariant:|^done|HARNESS|KNOWN" | cut -c1-300 | head -8
+cd /verif && VERIF_EVIDENCE_DIR=/tmp/verif-mut-evidence VERIF_REPLAY_DIR=/tmp/verif-mut-replays VERIF_REPO=$wt ./check $id "$@" 2>&1 | grep -E "VIOLATION|invariant:|^done|HARNESS|KNOWN" | cut -c1-300 | head -8
 git -C /repo worktree remove --force $wt
